@@ -59,6 +59,19 @@ CLAIMED["C01"] = dict(
     technique="contract-based deductive verification on a field-array heap (global representation invariant, ghost positions, frames), SMT-discharged; encapsulation scan; bounded explorer",
 )
 
+CLAIMED["C29"] = dict(
+    category="proof",
+    text="_lookup_symbol_in_direct_children (loop invariant: no earlier child has the name), _lookup_symbol_ref_in (the nesting rules: only "
+         "through symbol tables, private symbols refused, for 0..3/0..5 nested components), SymbolTable.lookup_symbol_in / "
+         "get_nearest_symbol_table / lookup_nearest_symbol_from and the cached SymbolTable.__init__/lookup (cached == direct when child names are "
+         "unique) are extracted from /repo and verified against the spec functions of the statement for unbounded child lists. Plus an "
+         "exhaustive bounded stand-in over generated nested modules through utils, SymbolTableCollection and traits.SymbolTable.lookup_symbol.",
+    note="Assumed: block.ops abstracted as the child sequence (C01); NAME/ISTABLE/PRIVATE/PARENTOP uninterpreted (trait lookup not under contract); "
+         "SymbolTableCollection and traits.SymbolTable.lookup_symbol bounded only; partial correctness; pyvc + z3 trusted.",
+    design="§4 C29",
+    technique="contract-based deductive verification (loop invariants over a ghost child sequence, modular callee contracts), SMT-discharged; bounded exhaustive stand-in",
+)
+
 NOT_APPLICABLE = {
     "C04": "whole Printer∘Parser composition over every dialect: recursive string programs; no per-function contract within reach of the SMT-backed generator expresses it",
     "C05": "about 80 dialects of hand-written print/parse pairs and a format-string interpreter; same obstacle as C04",
@@ -72,7 +85,7 @@ NOT_APPLICABLE = {
     "C28": "result preservation of an e-graph pipeline: whole-program statement with no per-function postcondition implying it",
 }
 
-NOT_REACHED = ["C02", "C03", "C06", "C08", "C09", "C11", "C13", "C14", "C18", "C19", "C20", "C24", "C25", "C26", "C29"]
+NOT_REACHED = ["C02", "C03", "C06", "C08", "C09", "C11", "C13", "C14", "C18", "C19", "C20", "C24", "C25", "C26"]
 
 
 def main():
